@@ -22,8 +22,8 @@ def serve_mc(mode, tier, **over):
     c["Mode"] = '"%s"' % mode
     if tier == "thorough":
         c.update({"MaxL": 5, "MaxItems": 3, "MaxExtra": 4, "MaxTags": 2})
-        if mode == "range":
-            c.update({"MaxL": 4, "MaxSpecs": 3})
+        if mode == "range3":
+            c.update({"MaxL": 3, "MaxSpecs": 3, "Mode": '"range"'})
         if mode == "big":
             c["MaxSpecs"] = 2
     if mode == "big":
@@ -31,11 +31,13 @@ def serve_mc(mode, tier, **over):
         if tier == "quick":
             c["MaxSpecs"] = 1
     c.update(over)
+    c.update(over)
     return ("ServeMC", c, ["HeadInv", "PollInv", "BodyInv", "PairInv", "EnvelopeInv"],
             ["ServeMC.DoHead"] + (["ServeMC.DoPoll"] if mode == "body" else []))
 
 
 SERVE_WITNESS = {
+    "range3": ["W_416"],
     "range": ["W_Multi", "W_416"], "big": ["W_416"], "cond": ["W_412", "W_304"], "ifrange": ["W_Multi"],
     "env": ["W_400", "W_412"], "body": ["W_ErrTerminal", "W_CleanMulti"],
 }
@@ -112,6 +114,8 @@ def serve_cases(prop, tier, seed):
     g.fam_mix(cb, n=2500 * (2 if T else 1), pair=(prop == "C15"), extra=4 if prop == "C20" else 1)
     if prop in ("C01", "C03", "C06", "C13"):
         g.fam_overflow(cb, n=300 * k)
+    if prop in ("C01", "C02", "C06", "C12", "C15", "C14"):
+        g.fam_range_file(cb, n=150 * k, pair=(prop == "C15"))
     return cb.cases
 
 
@@ -155,14 +159,16 @@ for _p in ALL_SERVE:
                               "cases": (lambda prop: (lambda tier, seed: serve_cases(prop, tier, seed)))(_p),
                               "constants": {"PartEstimate": "80", "Strict": "TRUE"},
                               "nontrivial": (lambda prop: (lambda c: serve_nontrivial(prop, c)))(_p)}],
-                 "mc": (lambda prop: (lambda tier: [(m, serve_mc(m, tier)) for m in SERVE_MC_MODES[prop]]))(_p),
+                 "mc": (lambda prop: (lambda tier: [(m, serve_mc(m, tier)) for m in SERVE_MC_MODES[prop]] +
+                                      ([("range3", serve_mc("range3", tier))]
+                                       if tier == "thorough" and "range" in SERVE_MC_MODES[prop] and prop in ("C03", "C02") else [])))(_p),
                  "witness": SERVE_WITNESS}
 
 
 # ------------------------------------------------------------------ runner
 
 def case_key(c):
-    d = {k: c.get(k) for k in ("method", "abs", "scripts", "dscript", "echo", "pair", "ops", "cfg", "prog", "sched", "conv", "len", "seg", "pre_sleep")
+    d = {k: c.get(k) for k in ("method", "abs", "scripts", "dscript", "echo", "pair", "ops", "cfg", "prog", "sched", "conv", "len", "seg", "pre_sleep", "file")
          if k in c}
     e = c.get("ent")
     if e:
